@@ -22,6 +22,10 @@ enum { NOP = 0, PUSH_BYTE = 1, PUSH_SHORT = 3, ADD = 6, NEXT = 25, COPY_NEXT = 2
 
 static void gen_action(Rng &r, unsigned len, bool subst, Bytes &a, unsigned numUser) {
     for (unsigned s = 0; s < len; ++s) {
+        if (subst && r.chance(1, 25)) {     // insertion burst: many new slots from one input slot (slot-pool growth paths, growth cap)
+            unsigned k = 2 + r.below(20);
+            for (unsigned q = 0; q < k; ++q) { w8(a, INSERT); w8(a, PUT_GLYPH8); w8(a, r.below(NGLYPH_USED)); w8(a, NEXT); }
+        }
         if (subst && r.chance(1, 6)) {      // a new slot inserted before input slot s (does not consume input)
             w8(a, INSERT); w8(a, PUT_GLYPH8); w8(a, r.below(NGLYPH_USED));
             // inside the insert block the loader's slot reference is one behind: valid refs are [1-s, len-s]
@@ -226,7 +230,7 @@ Plan gen_synth(u64 seed) {
     for (unsigned i = 0; i < n; ++i) {
         Op o; o.kind = "probe_seg"; static const int encs[] = {1, 2, 4};
         o.a = {0, r.chance(1, 2) ? 16 * 20 : 0, encs[r.below(3)], i64(r.below(8)), 0};
-        unsigned len = r.chance(1, 10) ? 30 + r.below(100) : 1 + r.below(10);
+        unsigned len = r.chance(1, 10) ? 30 + r.below(100) : (r.chance(1, 6) ? 1 : 1 + r.below(10));
         bool narrow = r.chance(1, 2);
         for (unsigned k = 0; k < len; ++k) o.text.push_back(r.chance(1, 20) ? 0x20 : 0x61 + r.below(narrow ? 3 : ALPHA));
         p.ops.push_back(o);
